@@ -13,6 +13,7 @@ CONSTANTS
   PhaseOn = {1, 2, 3, 4, 5}
   AllowCtrlC = FALSE
   MaxNFE = 1
+  AllowInvalid = TRUE
 INVARIANT ProtocolOK
 PROPERTY Termination
 CHECK_DEADLOCK FALSE
